@@ -116,6 +116,14 @@ type TableLemma struct {
 	Props      []string
 }
 
+// WritersClause: the only functions allowed to store to a package-level variable (or its elements).
+type WritersClause struct {
+	Pkg, Global string
+	Funcs       []string
+	Props       []string
+	Pos         string
+}
+
 type UFun struct {
 	Name   string
 	Params []Sort
@@ -137,11 +145,13 @@ type Contract struct {
 	Splits   []*SplitSpec
 	Trusted  string
 	Inline   bool
+	AlsoTags []string // additional build-tag sets under which the function is verified as well (e.g. race)
 	NoMerge  bool // path-sensitive execution: states are not merged at joins (small functions only)
 	Safety   bool // generate run-time-check obligations (default true)
 	Pos      string
 	Lets     []*SpecMacro
 	Unfolds  []*Clause
+	PostAssumes map[string][]*Clause // assumptions in force right after a call returns
 	CallAssumes map[string][]*Clause // assumptions stated at a call site (listed in the evidence)
 	Ghosts   []*SpecMacro // ghost results: name := expression over the function's variables at its returns
 }
@@ -153,8 +163,18 @@ type ContractSet struct {
 	UFuns   map[string]*UFun
 	Axioms  []*Clause
 	TableLemmas []*TableLemma
+	Writers []*WritersClause
 	Files   []string
 	NClause int
+}
+
+// macro looks a spec up in the given package, then among the package-independent specs.
+func (cs *ContractSet) macro(pkg, name string) (*SpecMacro, bool) {
+	if m, ok := cs.Macros[pkg+"."+name]; ok {
+		return m, true
+	}
+	m, ok := cs.Macros["."+name]
+	return m, ok
 }
 
 func (c *Contract) hasProp(p string) bool {
@@ -299,7 +319,7 @@ func (cs *ContractSet) parseClause(body, pos, pkg string, cur **Contract) error 
 		if err != nil {
 			return err
 		}
-		cs.Macros[name] = &SpecMacro{Name: name, Params: params, Body: e}
+		cs.Macros[pkg+"."+name] = &SpecMacro{Name: name, Params: params, Body: e}
 		return nil
 	case "ufun":
 		name, params, err := parseHeadList(strings.TrimSpace(rest[:strings.LastIndex(rest, ")")+1]))
@@ -312,6 +332,20 @@ func (cs *ContractSet) parseClause(body, pos, pkg string, cur **Contract) error 
 			u.Params = append(u.Params, sortByName(p))
 		}
 		cs.UFuns[name] = u
+		return nil
+	case "writers":
+		props, r := splitProps(rest)
+		j := strings.Index(r, ":")
+		if j < 0 {
+			return fmt.Errorf("writers without ':'")
+		}
+		w := &WritersClause{Pkg: pkg, Global: strings.TrimSpace(r[:j]), Props: props, Pos: pos}
+		for _, f := range strings.Split(r[j+1:], ",") {
+			if f = strings.TrimSpace(f); f != "" {
+				w.Funcs = append(w.Funcs, f)
+			}
+		}
+		cs.Writers = append(cs.Writers, w)
 		return nil
 	case "tablelemma":
 		props, r := splitProps(rest)
@@ -403,6 +437,20 @@ func (cs *ContractSet) parseClause(body, pos, pkg string, cur **Contract) error 
 			return err
 		}
 		c.Lets = append(c.Lets, &SpecMacro{Name: strings.TrimSpace(rest[:j]), Body: e})
+	case "postassume":
+		j := strings.Index(rest, ":")
+		if j < 0 {
+			return fmt.Errorf("postassume without ':'")
+		}
+		e, err := parseExpr(strings.TrimSpace(rest[j+1:]), pos)
+		if err != nil {
+			return err
+		}
+		if c.PostAssumes == nil {
+			c.PostAssumes = map[string][]*Clause{}
+		}
+		name := strings.TrimSpace(rest[:j])
+		c.PostAssumes[name] = append(c.PostAssumes[name], &Clause{Kind: "postassume", E: e, Text: strings.TrimSpace(rest[j+1:]), Pos: pos})
 	case "callassume":
 		// callassume <callee>: expr   -- an assumption (not proved) in force at calls to <callee>
 		j := strings.Index(rest, ":")
@@ -444,6 +492,8 @@ func (cs *ContractSet) parseClause(body, pos, pkg string, cur **Contract) error 
 		c.Inline = true
 	case "nomerge":
 		c.NoMerge = true
+	case "alsotags":
+		c.AlsoTags = append(c.AlsoTags, strings.Fields(rest)...)
 	case "nosafety":
 		c.Safety = false
 	case "split":
